@@ -399,8 +399,9 @@ impl Prop for C18 {
                 k.big = None;
             }
         }
-        if k.cols > 200 && k.rows > 200 {
-            // keep the occasional very large array
+        if k.cols > 240 && k.rows > 240 && matches!(k.elem, DocElem::U32 | DocElem::Unit) && k.view.is_none() {
+            // keep the occasional very large array (cheap cell types only: one execution must stay
+            // in the millisecond range under ASan)
         } else {
             k.cols %= 8;
             k.rows %= 8;
